@@ -589,6 +589,14 @@ pub fn run(run: &Run) {
             one[n - 1] = -3.0;
             reductions(run, &one, &one, "single-non-zero");
         }
+        // windows of a longer buffer at every offset modulo 4 (every alignment a kernel could assume)
+        {
+            let lx: Vec<f64> = xs(n + 5);
+            let ly: Vec<f64> = ys(n + 5);
+            for k in 0..4 {
+                reductions(run, &lx[k..k + n], &ly[(k + 2) % 4..(k + 2) % 4 + n], "window");
+            }
+        }
         let small: Vec<f64> = (0..n).map(|i| (1.0 + (i % 4) as f64) * 1e-120).collect();
         reductions(run, &small, &small, "tiny-magnitude");
         let big: Vec<f64> = (0..n).map(|i| (1.0 + (i % 4) as f64) * 1e120 * if i % 3 == 0 { -1.0 } else { 1.0 }).collect();
